@@ -58,6 +58,11 @@ def type_narrow(sid: Sid) -> Sid:
         sid with applied configured queries
     """
 
+    if sid.string.count("?"):
+        # The search already carries a query that could not be applied: it will be dropped.
+        # Narrowing it would merge both queries and could silently override the refused filter.
+        return sid
+
     query = basetyped_search_narrowing.get(sid.basetype, "")
     if query:
         sid = sid.get_with(query=query)
